@@ -16,9 +16,9 @@ cc -g -O0 -I$REPO/include -I$REPO -I$HERE/../../stubs -DHAVE_CONFIG_H -o $out/a.
 # (lib/upipe-ts, lib/upipe-framers), compiled against /verif/stubs
 # VALGRIND=1: run under valgrind, exit 1 on any reported error
 if [ -n "$VALGRIND" ]; then
-    LD_LIBRARY_PATH=$LP timeout 120 valgrind -q --error-exitcode=1 $out/a.out; rc=$?
+    LD_LIBRARY_PATH=$LP timeout 120 valgrind -q --error-exitcode=1 --leak-check=full $out/a.out $REPLAY_ARGS; rc=$?
 else
-    LD_LIBRARY_PATH=$LP timeout 20 $out/a.out; rc=$?
+    LD_LIBRARY_PATH=$LP timeout 20 $out/a.out $REPLAY_ARGS; rc=$?
 fi
 rm -rf $out
 echo "exit=$rc"
